@@ -354,6 +354,11 @@ where
         }
     }
 
+    #[cfg(rumqtt_verif)]
+    pub fn verif_filter(&self) -> &str {
+        &self.filter
+    }
+
     /// Writes to all the filters that are mapped to this publish topic
     /// and wakes up consumers that are matching this topic (if they exist)
     pub fn append(
